@@ -225,6 +225,44 @@ def check_offpolicy_lanes(ck, kind, E=2, n_steps=2, C=2):
             ck.prove(f"noninterference.{n}@{name}", [SE["st_step_state_buffer_position"][0] >= 0], eq_arr(a[0], b[0]), replay=lambda res, n=n: (True, {"note": f"lane 0 of {n} depends on lane 1's start state"}))
 
 
+def check_pytree_roundtrip(ck):
+    """`the same result whether called eagerly, under jit, or vmapped`: a space / wrapper that is an ARGUMENT of a transformed function is rebuilt inside it from
+    its pytree leaves.  The rebuilt object must compute what the original computes (e.g. a Dict space must keep its key order: JAX sorts the keys of plain dicts
+    when flattening).  Each function is traced with the object closed over and with the object rebuilt by tree_unflatten(tree_flatten(.)); the two programs are
+    interpreted on the same symbols and their outputs shown equal."""
+    from lerax.space import Box, Dict, Discrete, MultiDiscrete, Tuple
+    d1 = Dict({"velocity": Box(-jnp.ones(2), jnp.ones(2)), "position": Box(-2.0, 2.0, shape=(1,)), "alpha": Discrete(3)})       # keys NOT in alphabetical order
+    objs = {"Dict(velocity,position,alpha)": d1, "Tuple(Dict,Box)": Tuple((d1, Box(0.0, 1.0, shape=(2,)))), "Dict(z:Dict,a:MultiDiscrete)": Dict({"z": d1, "a": MultiDiscrete((2, 3))})}
+    for oname, sp in objs.items():
+        leaves, treedef = jax.tree_util.tree_flatten(sp)
+        sp2 = jax.tree_util.tree_unflatten(treedef, leaves)
+        x = sp.canonical()
+        for fname, f, ex, argn in (("flatten_sample", lambda s_, v: s_.flatten_sample(v), [x], ["x"]), ("sample_flat", lambda s_, k: s_.flatten_sample(s_.sample(key=k)), [jr.key(0)], ["key"])):
+            with stubs.prng_stubs():
+                t1 = trace(lambda *a, f=f: f(sp, *a), *ex, argnames=argn, label=f"{oname}.{fname} (object closed over)")
+                t2 = trace(lambda *a, f=f: f(sp2, *a), *ex, argnames=argn, label=f"{oname}.{fname} (object rebuilt from its pytree leaves)")
+            it = Interp()
+            S = t1.symbols(it)
+            o1, o2 = t1.run(it, S), t2.run(it, S)
+            same_shape = [tuple(o1[a].shape) for a in t1.out_names] == [tuple(o2[b].shape) for b in t2.out_names]
+            if not same_shape:
+                ck.fact(f"pytree_roundtrip.{oname}.{fname}", False, "output structure differs after a flatten/unflatten round trip")
+                continue
+
+            def rp(res, f=f, ex=ex, sp=sp):
+                import equinox as eqx
+                args = ex if fname == "sample_flat" else [jax.tree_util.tree_map(lambda l: jnp.asarray(np.arange(1, np.size(l) + 1).reshape(np.shape(l)) % 2, jnp.asarray(l).dtype), ex[0])]
+                with stubs.prng_stubs():
+                    from jaxsmt.uf import GenericWorld, world
+                    jax.clear_caches()
+                    with world(GenericWorld(seed=2)):
+                        eager = np.asarray(f(sp, *args), np.float64)
+                        jitted = np.asarray(eqx.filter_jit(f)(sp, *args), np.float64)
+                    jax.clear_caches()
+                return (eager.shape != jitted.shape or not np.array_equal(eager, jitted)), {"function": f"{oname}.{fname}", "eager": eager.reshape(-1)[:12].tolist(), "filter_jit_with_the_object_as_argument": jitted.reshape(-1)[:12].tolist()}
+            ck.prove(f"pytree_roundtrip.{oname}.{fname}", stubs.contracts(it), conj([eq_arr(o1[a], o2[b]) for a, b in zip(t1.out_names, t2.out_names)]), replay=rp)
+
+
 def check_env_transparency(ck):
     """every component of the classic-control environments: traced without Python branching on values, and vmap(f)(xs)[i] == f(xs[i])"""
     from lerax.env.classic_control import Acrobot, CartPole, ContinuousMountainCar, MountainCar, Pendulum
@@ -370,6 +408,8 @@ def main():
         with ck.section(f"offpolicy.training_rows@E=2,C={C_},B={B_}"):
             from props import C06
             C06.sec_sample(ck, C_, 2, B_)
+    with ck.section("pytree_roundtrip"):
+        check_pytree_roundtrip(ck)
     with ck.section("env_transparency"):
         check_env_transparency(ck)
     mj = ["HalfCheetah", "InvertedPendulum"] if not ck.thorough else ["Ant", "HalfCheetah", "Hopper", "Humanoid", "HumanoidStandup", "InvertedDoublePendulum", "InvertedPendulum", "Pusher", "Reacher",
